@@ -6,7 +6,7 @@
    The property's full statement is the theorem zix_normal_correct below, for every C string
    whose allocation request len + 2 does not wrap. *)
 From Coq Require Import ZArith List Bool.
-From Zix Require Import PathNormSpec PathNormModel PathNormProofsSpec PathNormProofsModel PathNormProofsDD PathNormProofsTail PathNormProofsPlain PathNormProofs.
+From Zix Require Import PathNormSpec PathNormModel PathNormProofsSpec PathNormProofsModel PathNormProofsDD PathNormProofsTail PathNormProofsLen PathNormProofsPlain PathNormProofs.
 Import ListNotations.
 Local Open Scope Z_scope.
 
@@ -55,11 +55,15 @@ Proof.
 Qed.
 Print Assumptions zix_normal_fixed_point.
 
-(* idempotence.  The second bound is on the length of the result (the allocation of the second
-   call); |std_normal s| <= |s| is not proved, hence the hypothesis. *)
+(* idempotence (the result is never longer than the input, std_normal_length, so the allocation
+   of the second call fits as well) *)
+Theorem std_normal_not_longer : forall s, (length (std_normal s) <= length s)%nat.
+Proof. exact std_normal_length. Qed.
+Print Assumptions std_normal_not_longer.
+
 Theorem zix_normal_idempotent : forall s, c_string s -> zlen s + 2 < 2 ^ 64 ->
-  zlen (std_normal s) + 2 < 2 ^ 64 -> zix_normal (zix_normal s) = zix_normal s.
-Proof. exact zix_normal_idem_all. Qed.
+  zix_normal (zix_normal s) = zix_normal s.
+Proof. exact zix_normal_idem_full. Qed.
 Print Assumptions zix_normal_idempotent.
 
 (* the witnesses of the four former finding classes (and of the former idempotence failure),
